@@ -71,3 +71,108 @@ class IdleInit:
 
     def ensures_name(self, gate, name, result):
         return implies(name is None, self._name == "I_" + old(gate._name))
+
+
+# ---------------------------------------------------------------- C18: calling a gate definition
+from jaqalpaq.core.gate import GateStatement
+
+
+@spec
+def wf_gate(g) -> bool:
+    """a gate definition: a list of parameters with string names and kinds, names pairwise distinct"""
+    return (isinstance(g, AbstractGate) and is_str(g._name) and isinstance(g._parameters, list)
+            and forall_range(len(g._parameters), lambda k: wf_param(g._parameters[k]) and is_str(g._parameters[k]._name))
+            and forall_range(len(g._parameters), lambda a: forall_range(len(g._parameters), lambda b: implies(a != b, not same(g._parameters[a]._name, g._parameters[b]._name)))))
+
+
+@contract("core.gatedef:AbstractGate.call", props=["C18", "C16"], primary=False)
+class GateCallPositional:
+    """C18, positional calls: a gate definition accepts exactly as many arguments as it has parameters, each fitting
+    the parameter's kind, and binds the k-th argument to the k-th parameter's name; every other positional call is
+    refused with JaqalError and nothing else"""
+
+    def requires(self, args, kwargs):
+        return (wf_gate(self) and isinstance(args, tuple) and isinstance(kwargs, dict) and len(kwargs) == 0 and len(args) >= 1
+                and forall_range(len(args), lambda k: plain_value(args[k])))
+
+    def raises_JaqalError(self, args, kwargs):
+        return (len(args) != len(self._parameters)
+                or exists_range(len(args), lambda k: not fits(self._parameters[k]._kind, args[k])))
+
+    raises_only = ("JaqalError",)
+
+    def ensures(self, args, kwargs, result):
+        return (type_is(result, GateStatement) and same(result._gate_def, self) and isinstance(result._parameters, dict)
+                and len(result._parameters) == len(args)
+                and forall_range(len(args), lambda k: has_key(result._parameters, self._parameters[k]._name)
+                                 and same(dict_lookup(result._parameters, self._parameters[k]._name), args[k])
+                                 and same(dict_key_at(result._parameters, k), self._parameters[k]._name)))
+
+    def inv_1(self, args, kwargs, params, _k):
+        return (isinstance(params, dict) and len(params) == _k
+                and forall_range(len(self._parameters), lambda j: implies(j >= _k, not has_key(params, self._parameters[j]._name)))
+                and forall_range(_k, lambda j: has_key(params, self._parameters[j]._name)
+                                 and same(dict_lookup(params, self._parameters[j]._name), args[j])
+                                 and same(dict_key_at(params, j), self._parameters[j]._name)))
+
+    def inv_3(self, args, kwargs, params, _k):
+        return forall_range(_k, lambda j: fits(self._parameters[j]._kind, args[j]))
+
+
+@contract("core.gatedef:AbstractGate.call", props=["C18", "C16"])
+class GateCallEmpty:
+    """a call without any argument is accepted exactly by a gate without parameters; otherwise JaqalError (and
+    nothing else - in particular no KeyError from the validation loop)"""
+
+    def requires(self, args, kwargs):
+        return wf_gate(self) and isinstance(args, tuple) and isinstance(kwargs, dict) and len(kwargs) == 0 and len(args) == 0
+
+    def raises_JaqalError(self, args, kwargs):
+        return len(self._parameters) != 0
+
+    raises_only = ("JaqalError",)
+
+    def ensures(self, args, kwargs, result):
+        return type_is(result, GateStatement) and same(result._gate_def, self) and isinstance(result._parameters, dict) and len(result._parameters) == 0
+
+    def inv_3(self, args, kwargs, params, _k):
+        return True
+
+
+@contract("core.gatedef:AbstractGate.call", props=["C18"], primary=False)
+class GateCallKeyword:
+    """C18, keyword calls (the arguments end up in PARAMETER order whatever the order of the keywords, which is what
+    makes the statement equal to the positional one - GateStatement equality compares arguments in order): accepted exactly when the keywords are the gate's parameter names, each value fitting its
+    parameter's kind; the value given for a name is bound to that name - the same statement the positional call in
+    parameter order builds; every other keyword call is refused with JaqalError and nothing else"""
+
+    def requires(self, args, kwargs):
+        return (wf_gate(self) and isinstance(args, tuple) and len(args) == 0 and isinstance(kwargs, dict) and len(kwargs) >= 1
+                and forall_keys(kwargs, lambda k: is_str(k) and plain_value(dict_lookup(kwargs, k))))
+
+    def raises_JaqalError(self, args, kwargs):
+        return (len(kwargs) != len(self._parameters)
+                or exists_range(len(self._parameters), lambda j: not has_key(kwargs, self._parameters[j]._name))
+                or exists_range(len(self._parameters), lambda j: has_key(kwargs, self._parameters[j]._name)
+                                and not fits(self._parameters[j]._kind, dict_lookup(kwargs, self._parameters[j]._name))))
+
+    raises_only = ("JaqalError",)
+
+    def ensures(self, args, kwargs, result):
+        return (type_is(result, GateStatement) and same(result._gate_def, self) and isinstance(result._parameters, dict)
+                and len(result._parameters) == len(self._parameters)
+                and forall_range(len(self._parameters), lambda j: has_key(result._parameters, self._parameters[j]._name)
+                                 and same(dict_lookup(result._parameters, self._parameters[j]._name), dict_lookup(old(kwargs), self._parameters[j]._name))
+                                 and same(dict_key_at(result._parameters, j), self._parameters[j]._name)))
+
+    def inv_2(self, args, kwargs, params, _k):
+        return (isinstance(params, dict) and len(params) == _k and isinstance(kwargs, dict) and len(kwargs) == len(old(kwargs)) - _k
+                and forall_range(len(self._parameters), lambda j: implies(j >= _k, not has_key(params, self._parameters[j]._name)
+                                                                          and has_key(kwargs, self._parameters[j]._name) == has_key(old(kwargs), self._parameters[j]._name)
+                                                                          and same(dict_lookup(kwargs, self._parameters[j]._name), dict_lookup(old(kwargs), self._parameters[j]._name))))
+                and forall_range(_k, lambda j: has_key(old(kwargs), self._parameters[j]._name) and has_key(params, self._parameters[j]._name)
+                                 and same(dict_lookup(params, self._parameters[j]._name), dict_lookup(old(kwargs), self._parameters[j]._name))
+                                 and same(dict_key_at(params, j), self._parameters[j]._name)))
+
+    def inv_3(self, args, kwargs, params, _k):
+        return forall_range(_k, lambda j: fits(self._parameters[j]._kind, dict_lookup(old(kwargs), self._parameters[j]._name)))
